@@ -5,7 +5,7 @@ from . import common as cm
 ACTIONS = ["SetPar", "FixPar", "ReleasePar", "AddConstraint", "AddSource", "DoFit", "Read"]
 INVARIANTS = ["Mirrored", "SymmetricLayout", "EverySourceOnItsDiagonal"]
 PROPERTIES = ["FixedKeepValue"]
-PATTERNS = ["disjoint", "shared", "chain", "nonadj", "mixed", "single"]
+PATTERNS = ["disjoint", "shared", "chain", "nonadj", "mixed", "reorder", "single"]
 
 
 def constants(pattern, depth, off=(), faults=()):
